@@ -133,6 +133,19 @@ def _r3(ctx):
                 ops = sorted({y[1] for y in subterms(v) if y[0] in ("bin", "un")})
                 ctx.check(not ops, "R3", "decoded-field-is-the-octets-read:%s" % fname, ctx.where(b, s["sp"]),
                           "the decoder computes `%s` from what it read (%s): the field must be stored as read" % (fname, ", ".join(map(str, ops)) or "-"))
+        # `sname` and `file` are the two fixed text fields, always: null_terminated(<the 64 / 128 octets read>), whatever the options say.
+        # (RFC 2131's option overload would have them carry options; the encoder never writes them that way, so a decoder that reads
+        # them that way does not give back what was encoded.)
+        for _, bb, idx, s in find_aggs(P, "dhcppkt::Dhcp", [b]):
+            t = norm(T.rvalue(s["rv"], bb, idx))
+            for fname, v in t[3]:
+                if fname not in ("sname", "file"):
+                    continue
+                v = norm(v)
+                okv = v[0] == "call" and str(v[1]).endswith("null_terminated") and len(v[2]) == 1 and any(
+                    y[0] == "call" and "pktparser::Buffer" in str(y[1]) and str(y[1]).rsplit("::", 1)[-1] in ("get_vec", "get_bytes") for y in subterms(norm(v[2][0])))
+                ctx.check(okv, "R3", "text-field-is-the-octets-read:%s" % fname, ctx.where(b, s["sp"]),
+                          "`%s` must be null_terminated(the field as read) on every path (is %s)" % (fname, show(v)[:100]))
         # magic: the read compared with the constant
         for bb, idx, s in b.stmts():
             if "rv" in s and s["rv"]["k"] == "bin" and s["rv"]["op"] in ("Ne", "Eq"):
@@ -546,6 +559,63 @@ def _r7(ctx):
             shl8 = [1 for bb, idx, s in b.stmts() if s.get("rv") and s["rv"]["k"] == "bin" and s["rv"]["op"].startswith("Shl") and s["rv"]["b"].get("k", {}).get("int") == "8"]
             odd = len(shl8) >= 2
             ctx.check(word and odd, "R7", "checksum:word=(hi<<8)|lo,odd-tail=hi<<8", ctx.where(b), "big-endian 16-bit words, an odd final octet padded on the right")
+            # what is added into the 32-bit running sum is at most a 16-bit word: 65536 additions of 16-bit words fit in 32 bits, and the
+            # carries are folded at the end.  An addend of 32 bits (summing four octets at a time) needs its own end-around carry on
+            # *every* addition that follows, the leftover ones included.
+            def width(t, depth=0):
+                t = norm(t)
+                if depth > 10:
+                    return 32
+                if t[0] == "const":
+                    return max(1, int(t[1]).bit_length()) if isinstance(t[1], int) and t[1] >= 0 else 32
+                if t[0] == "cast":
+                    src = str(t[1]) if len(t) > 1 else ""
+                    inner = width(t[3], depth + 1)
+                    for name, w in (("u8", 8), ("u16", 16), ("bool", 1)):
+                        if src == name or str(t[2]) == name:
+                            inner = min(inner, w) if src == name else inner
+                    return inner
+                if t[0] == "index":
+                    return 8        # an octet of the buffer
+                if t[0] == "bin":
+                    a, c = width(t[2], depth + 1), width(t[3], depth + 1)
+                    if t[1].startswith("Shl"):
+                        k = const_value(t[3])
+                        return min(32, a + k) if k is not None else 32
+                    if t[1] in ("BitOr", "BitXor"):
+                        return max(a, c)
+                    if t[1] == "BitAnd":
+                        return min(a, c)
+                    if t[1].startswith("Shr"):
+                        k = const_value(t[3])
+                        return max(0, a - k) if k is not None else a
+                    return 32
+                if t[0] == "field" and norm(t[1])[0] == "bin":
+                    return width(t[1], depth + 1)
+                return 32
+            wide = []
+            n_add = 0
+            for bb, idx, st in b.stmts():
+                rv = st.get("rv")
+                if rv and rv["k"] == "bin" and rv["op"] in ("Add", "AddWithOverflow", "AddUnchecked") and "u32" in str(rv.get("ty", b.local_ty(st["p"][0]))):
+                    t = norm(T.rvalue(rv, bb, idx))
+                    ws = sorted((width(t[2]), width(t[3])))
+                    # index arithmetic (usize) is typed usize, not u32; additions of two narrow values are not the accumulator's
+                    if ws[1] == 32:
+                        n_add += 1
+                        if ws[0] > 16:
+                            wide.append(P.rel(st["sp"]))
+            for bb, tm in b.calls():
+                nme = (callee_name(tm) or "").rsplit("::", 1)[-1]
+                if nme in ("overflowing_add", "wrapping_add", "carrying_add", "checked_add", "saturating_add", "unchecked_add"):
+                    a = [norm(x) for x in T.call_args(bb)]
+                    ws = sorted(width(x) for x in a[:2])
+                    if ws and ws[-1] == 32:
+                        n_add += 1
+                        if ws[0] > 16:
+                            wide.append(P.rel(tm["sp"]))
+            ctx.check(n_add >= 2 and not wide, "R7", "checksum:addends-are-16-bit-words", ctx.where(b),
+                      "an addend wider than 16 bits is added into the 32-bit running sum at %s" % (wide or "-"))
         if fid.endswith("erbium_net::packet::finish_netsum"):
             ctx.saw(b)
             T = terms(P, b)
